@@ -101,8 +101,16 @@ def populate_world_from_dict(world: World, world_dict: dict):
             processor_dict['type'](*processor_dict.get('args', []),
                                    **processor_dict.get('kwargs', {})))
 
+    # Automatic identifiers shall not fall on the ones given explicitly
+    reserved = {entity_dict['id'] for entity_dict in entities
+                if entity_dict.get('id', None) is not None}
+
     for entity_dict in entities:
         entity_id = entity_dict.get('id', None)
+        if entity_id is None and reserved:
+            entity_id = next(world.id_generator)
+            while entity_id in reserved or world.get_components(entity_id):
+                entity_id = next(world.id_generator)
 
         components = []
         for component_dict in entity_dict.get('components', []):
